@@ -501,11 +501,8 @@ impl Family for C18 {
                 }
             }
         }
-        for at in shrink_list(&s.plan.at) {
-            out.push(S18 { plan: FaultPlan { at, capacity: s.plan.capacity }, ..s.clone() });
-        }
-        if s.plan.capacity.is_some() {
-            out.push(S18 { plan: FaultPlan { at: s.plan.at.clone(), capacity: None }, ..s.clone() });
+        for plan in s.plan.shrink(10) {
+            out.push(S18 { plan, ..s.clone() });
         }
         out
     }
